@@ -418,6 +418,18 @@ func startPipeline(r *obsRun, kind, name string, n []int, f []float64, env [][]f
 			r.drain(floatRecv(w), pc, 0, 1)
 			break
 		}
+		if (name == "wmax" || name == "wmin") && len(env) == 2 && len(env[1]) == 1 {
+			// trend.MovingMax / MovingMin as the library builds them (NetM.winNet: the MovingSum network with a search-tree closure)
+			c := feed(r, env[0], capacity, pc, 0, 1)
+			var w <-chan float64
+			if name == "wmax" {
+				w = trend.NewMovingMaxWithPeriod[float64](int(env[1][0])).Compute(c)
+			} else {
+				w = trend.NewMovingMinWithPeriod[float64](int(env[1][0])).Compute(c)
+			}
+			r.drain(floatRecv(w), pc, 0, 1)
+			break
+		}
 		if name == "sma" && len(env) == 2 && len(env[1]) == 1 {
 			// trend.Sma as the library builds it (NetM.smaNet: MovingSum followed by the dividing Apply)
 			c := feed(r, env[0], capacity, pc, 0, 1)
